@@ -36,15 +36,25 @@ std::string vecStr(const std::vector<data_t> &v) {
 
 std::vector<data_t> genPoints(Rng &g, size_t n) {
   std::vector<data_t> p;
-  const int shape = (int)g.below(3);
+  const int shape = (int)g.below(6);
   data_t x = (data_t)g.range(-12, 8);
   if (shape == 2) x += 100;  // off-centre
   p.push_back(x);
+  const size_t longAt = n > 2 ? 1 + g.below(n - 2) : 0;
   for (size_t i = 1; i < n; i++) {
     data_t w;
     switch (shape) {
       case 0:
         w = 0.5;
+        break;
+      case 3:  // two finely resolved layers bridged by one long element
+        w = (i == longAt) ? 1.0 : 0.01;
+        break;
+      case 4:  // graded: each interval twice the previous one (bounded at 256x)
+        w = 0.01 * std::pow(2.0, (double)std::min<size_t>(i, 8));
+        break;
+      case 5:  // alternating short / long
+        w = (i % 2) ? 0.02 : 0.9;
         break;
       default:
         w = (data_t)g.range(1, 16) / 8.0;
@@ -142,7 +152,7 @@ void runCase(Ctx &c) {
       data_t worst = 0;
       for (data_t x : xs) worst = std::max(worst, std::fabs(msol(-x) - sol(x)) / scale);
       c.maxval("diffusion:mirror-deviation", (double)worst);
-      if (!(worst <= 1e-6))
+      if (!(worst <= 1e-5))
         c.violation("C20", "diffusion/mirror-symmetry",
                     desc + ": mirrored problem deviates by " +
                         std::to_string((double)worst) + " * scale");
@@ -155,7 +165,7 @@ void runCase(Ctx &c) {
         worst = std::max(worst, std::fabs(sol(x) - line) / scale);
       }
       c.maxval("diffusion:straight-line-deviation", (double)worst);
-      if (!(worst <= 1e-9))
+      if (!(worst <= 1e-8))
         c.violation("C20", "diffusion/straight-line",
                     desc + ": deviation from the straight line " +
                         std::to_string((double)worst) + " * scale");
